@@ -127,7 +127,11 @@ pub fn interp_point(thorough: bool) -> Report {
                 let f = VmFunction::from(data);
                 let tape = f.point_tape(Default::default());
                 let ys: Vec<f32> = if two_inputs { g.clone() } else { vec![0.0] };
-                for &x in &g {
+                let mut xs = g.clone();
+                if case.kind == Kind::Reg {
+                    xs.extend(boundary_values());
+                }
+                for &x in &xs {
                     for &y in &ys {
                         r.cases += 1;
                         let (a, b) = operands(&case, two_inputs, x, y, imm);
@@ -194,6 +198,10 @@ pub fn interp_bulk(thorough: bool) -> Report {
             px.push(x);
             py.push(y);
         }
+    }
+    for b in boundary_values() {
+        px.push(b);
+        py.push(b);
     }
     for case in op_table() {
         for place in placements(thorough) {
